@@ -251,6 +251,42 @@ def run_worker(pid: str, tier: str, seed: int, shard: int, nshards: int, out: st
 
 
 # --------------------------------------------------------------------------------------------------
+# W-tests: the repository's own test-suite with the property's contracts armed (thorough tier)
+
+BASELINE_FAILING = {"tests/dec/test_dec.py::test_particle_property_definitions", "tests/test_convert.py::test_full_convert"}
+
+
+def run_wtests(pid: str, spec: dict, wd: str):
+    """-> (violations, monitor counts, inconclusive reasons, summary)"""
+    out = os.path.join(wd, "wtests.json")
+    env = child_env()
+    env["VMON_WTESTS_OUT"] = out
+    env["VMON_WTESTS_GROUPS"] = ",".join(spec["groups"])
+    cmd = [sys.executable, "-m", "pytest", "-q", "-rf", "-p", "no:cacheprovider", "-p", "vmon.pytest_plugin", "--timeout=900", *spec["tests"]]
+    try:
+        r = subprocess.run(cmd, cwd=REPO, env=env, capture_output=True, text=True, timeout=2400)
+    except subprocess.TimeoutExpired:
+        return [], {}, ["W-tests: the repository's test run exceeded its watchdog"], {}
+    if not os.path.exists(out):
+        return [], {}, ["W-tests: no result file: " + (r.stdout[-300:] + r.stderr[-300:])], {}
+    with open(out) as f:
+        d = json.load(f)
+    failed = {ln.split(" ")[1] for ln in r.stdout.splitlines() if ln.startswith("FAILED ")}
+    reasons = []
+    extra = failed - BASELINE_FAILING
+    if extra:
+        reasons.append(f"W-tests: repository tests fail with the contracts armed: {sorted(extra)[:5]}")
+    viol = []
+    for v in d["violations"]:
+        if v["prop"] in (pid, "harness"):
+            viol.append({"mechanism": "w-tests:" + v["mechanism"], "message": f"[{v['test']}] {v['message']}",
+                         "witness": {"kind": "w-tests", "test": v["test"], "detail": v.get("detail")}})
+    counts = {"w-tests:" + k: n for k, n in d["counts"].items() if k.startswith(pid + ".")}
+    tail = [ln for ln in r.stdout.splitlines() if " passed" in ln or " failed" in ln][-1:]
+    return viol, counts, reasons, {"summary": tail[0] if tail else "", "contract_firings_all_properties": len(d["violations"])}
+
+
+# --------------------------------------------------------------------------------------------------
 # parent
 
 
@@ -341,6 +377,17 @@ def run_parent(pid: str, tier: str, workers: int | None = None) -> int:
                     tail = f.read()[-600:]
                 reasons.append(f"worker {i} died without result (rc={p.returncode}): {tail}")
         merged = _merge(parts)
+        if tier == "thorough" and getattr(mod, "WTESTS", None):
+            wv, wc, wr, wsum = run_wtests(pid, mod.WTESTS, wd)
+            merged["violations"].extend(wv)
+            for v in wv:
+                merged["firings"][v["mechanism"]] += 1
+            merged["monitors"].update(wc)
+            merged["workloads"]["w-tests"] = sum(wc.values())
+            merged["notes"]["w-tests"] = wsum
+            reasons.extend(wr)
+            if not wc and not wr:
+                reasons.append("W-tests: the property's contracts were never evaluated during the repository's tests")
         shutil.rmtree(wd, ignore_errors=True)
         reasons.extend(merged["inconclusive"])
         if hasattr(mod, "finish"):
